@@ -537,7 +537,7 @@ BAD_ARGS = [[1, 2], {'$d': [['a', 1]]}, {'$s': [1, 2]}, {'$o': 'badrepr'}, {'$o'
             [[1], {'$o': 'unpicklable'}], {'$deep': 3000}, {'$d': [[1, 2.5]]}, [{'$d': [[{'$t': [0, 1]}, 4.0]]}]]
 
 OPMIX = {
-    'C01': [(60, 'call'), (4, 'chdir'), (2, 'sibling_call'), (5, 'peer_call'), (4, 'load'), (3, 'load_k'), (4, 'dump'), (2, 'dump_k'), (3, 'clear'),
+    'C01': [(60, 'call'), (5, 'mcall'), (4, 'chdir'), (2, 'sibling_call'), (5, 'peer_call'), (4, 'load'), (3, 'load_k'), (4, 'dump'), (2, 'dump_k'), (3, 'clear'),
             (1, 'clear_keep'), (3, 'off'), (3, 'on'), (2, 'swap'), (4, 'restart'), (3, 'restart_dump'),
             (3, 'advance')],
     'C02': [(60, 'call'), (4, 'chdir'), (2, 'sibling_call'), (6, 'peer_call'), (3, 'load'), (2, 'load_k'), (5, 'dump'), (2, 'dump_k'), (2, 'clear'),
@@ -552,7 +552,7 @@ OPMIX = {
             (3, 'clone'), (5, 'rcall'), (3, 'bad')],
     'C16': [(55, 'call'), (14, 'rcall'), (8, 'bad'), (3, 'load'), (3, 'dump'), (2, 'clear'), (2, 'off'),
             (2, 'on'), (2, 'restart_dump')],
-    'C18': [(50, 'call'), (2, 'sibling_call'), (14, 'key'), (14, 'lookup'), (3, 'rcall'), (3, 'load'), (3, 'dump'),
+    'C18': [(50, 'call'), (5, 'mcall'), (2, 'sibling_call'), (14, 'key'), (14, 'lookup'), (3, 'rcall'), (3, 'load'), (3, 'dump'),
             (2, 'clear'), (2, 'off'), (2, 'on'), (2, 'restart_dump')],
     'C20': [(60, 'call'), (3, 'load'), (3, 'dump'), (2, 'clear'), (1, 'clear_keep'), (2, 'off'), (2, 'on'),
             (3, 'rcall')],
@@ -597,6 +597,9 @@ def generate(rng, prop, tier):
         mix = [(w, k) for (w, k) in mix if k != 'sibling_call']
     if not (cfg['backend'] and cfg['backend'].get('rel')):
         mix = [(w, k) for (w, k) in mix if k != 'chdir']
+    if fn in ('r1', 'b1') or cfg['keymap']['kind'] == 'raw' or cfg.get('ignore') is not None or \
+       (cfg['keymap']['kind'] == 'pickle' and cfg['keymap']['arg'] == 'json' and False):
+        mix = [(w, k) for (w, k) in mix if k != 'mcall']
     if fn == 'r1':
         mix = [(w, k) for (w, k) in mix if k not in ('bad', 'rcall', 'peer_call', 'clone', 'codeco_call')]
     n = rng.randint(5, 60)
@@ -628,6 +631,14 @@ def generate(rng, prop, tier):
             else:
                 recent.append(c)
             ops.append(op)
+        elif kind == 'mcall':
+            # the same list object as in the previous mcall, possibly changed in place since then
+            op = {'op': 'call', 'a': [{'$mut': 0}] + ([1] if fn == 'f9' else []), 'kw': [], 'mut': True}
+            if rng.chance(0.6):
+                op['mutate'] = rng.choice(['append', 'set0', 'pop'])
+            ops.append(op)
+            if rng.chance(0.5):
+                ops.append({'op': 'call', 'a': [{'$mut': 0}] + ([1] if fn == 'f9' else []), 'kw': [], 'mut': True})
         elif kind == 'bad':
             extra = [1] if fn == 'f9' else []
             if fn in ('f2', 'f6', 'f7', 'f3') and rng.chance(0.4):
@@ -705,7 +716,8 @@ _WRAP_CNT = [False]
 
 
 def _decode_call(op):
-    args, kw = [dec(v) for v in op['a']], dict((n, dec(v)) for n, v in op['kw'])
+    args, kw = [dec(v) if not (isinstance(v, dict) and '$mut' in v) else _Cur.world.mut for v in op['a']], \
+        dict((n, dec(v)) for n, v in op['kw'])
     if _WRAP_CNT[0]:
         args = [Cnt(a) if isinstance(a, int) and not isinstance(a, bool) else a for a in args]
     return args, kw
@@ -738,6 +750,7 @@ class World(object):
         self.f = None
         self.g = None
         self.sib = None
+        self.mut = [1, 2]        # ONE list object, passed again and again and mutated in place in between
         self.raised_steps = set()
         self.orig = None       # C20: the function that was pickled
         self.orig_snap = None
@@ -1120,6 +1133,15 @@ def run_world(case, prop, root, name, skip, fs, clock, probes, faults, log):
             clock.advance(op['dt'])
             continue
         if kind == 'call':
+            if op.get('mutate'):
+                m = w.mut
+                if op['mutate'] == 'append':
+                    m.append(len(m) + 10)
+                elif op['mutate'] == 'set0':
+                    m[0] = m[0] + 100 if m else None
+                elif op['mutate'] == 'pop' and len(m) > 1:
+                    m.pop()
+                bump(faults, 'argument-mutated-in-place')
             args, kw = _decode_call(op)
             try:
                 key, keyerr = f.key(*args, **kw), None
